@@ -198,7 +198,12 @@ Definition ufs_looks_at_the_tree : bool :=                        (* C16: Lstat 
   && (let s := shape_of "ufsFid.stat" in has "call:Lstat" s && negb (has "call:Stat" s))
   (* the directory bit is computed before (outside) the dialect-dependent part of the mode *)
   && imm_before "call:uint32" "call:IsDir" (shape_of "dir2Npmode").
-Definition ufs_reports_errno : bool := has "call:As" (shape_of "toError").   (* C17 *)
+Definition ufs_reports_errno : bool :=                            (* C17 *)
+  has "call:As" (shape_of "toError")
+  (* wstat works by path (truncate(2), chmod(2), utimes(2)): what the fid happens to be open for does not matter *)
+  && negb (has "use:ufsFid.file" (shape_of "Ufs.Wstat"))
+  (* a link target is judged component by component (a name may contain dots) *)
+  && (let c := shape_of "Ufs.Create" in before "call:Split" "call:Symlink" c && negb (has "call:Contains" c)).
 Definition ufs_attach_anchors_at_root : bool :=                   (* C18: Join(root, Join("/", aname)) *)
   Nat.eqb (count_ev "call:Join" (shape_of "Ufs.Attach")) 2 && negb (has "call:Clean" (shape_of "Ufs.Attach"))
   (* names: one test (any '/' anywhere) shared by Walk and Create; link targets: absolute refused, then every
